@@ -20,8 +20,9 @@ Case layout (a case = a block of pipelines, pure function of (seed, n)):
                  identity/None processors, None recoveries), each cascade run twice.
 """
 import sys
+import threading
 
-from rv import core
+from rv import core, locks, sched
 
 PID = "C19"
 LEVEL = "fault_enumeration"
@@ -156,8 +157,10 @@ def decode(idx, K):
 # ---------------------------------------------------------------------------- plan
 def tier_params(tier):
     if tier == "quick":
-        return {"K": 3, "G": 96, "mapk_cases": 40, "mapk_per": 50, "rand_cases": 7000, "rand_per": 96}
-    return {"K": 4, "G": 1024, "mapk_cases": 280, "mapk_per": 100, "rand_cases": 20000, "rand_per": 512}
+        return {"K": 3, "G": 96, "mapk_cases": 40, "mapk_per": 50, "rand_cases": 7000, "rand_per": 96,
+                "ov_cases": 320, "ov_per": 10, "ov_nested": 6, "ov_sched": 12}
+    return {"K": 4, "G": 1024, "mapk_cases": 280, "mapk_per": 100, "rand_cases": 20000, "rand_per": 512,
+            "ov_cases": 1400, "ov_per": 20, "ov_nested": 8, "ov_sched": 16}
 
 
 def n_sweep_cases(tp):
@@ -170,7 +173,7 @@ def plan(tier):
     ns, total = n_sweep_cases(tp)
     quick = tier == "quick"
     return {
-        "cases": ns + tp["mapk_cases"] + tp["rand_cases"],
+        "cases": ns + tp["mapk_cases"] + tp["rand_cases"] + tp["ov_cases"],
         "shards": 8 if quick else 14,
         "min_nontrivial": 1500,
         "timeout": 600 if quick else 2400,
@@ -249,9 +252,14 @@ def render_result(res):
         return "unrenderable result: %r" % (e,)
 
 
-def judge(ctx, acc, meta, halt, maxamp, inp, log, res, describe, layer):
-    """meta: list of (name, has_checkpoint, has_handler, required, factor). Returns the per-stage states."""
+def judge(ctx, acc, meta, halt, maxamp, inp, log, res, describe, layer, msuf=""):
+    """meta: list of (name, has_checkpoint, has_handler, required, factor). Returns the per-stage states.
+    `msuf` is appended to every mechanism key (input class of the layer, e.g. ':overlapping-runs')."""
     n = len(meta)
+
+    def violation(mech, what, w):
+        ctx.violation(mech + msuf, what, w)
+
     state = [NOT_REACHED] * n
     gate = [None] * n          # (signal, outcome) of the stage's latest unconsumed checkpoint call
     procsig = [None] * n
@@ -289,7 +297,7 @@ def judge(ctx, acc, meta, halt, maxamp, inp, log, res, describe, layer):
             acc["halting_points_violated"] = acc.get("halting_points_violated", 0) + 1
             if not halt_reported:
                 halt_reported = True
-                ctx.violation("ran-after-halt:" + halted,
+                violation("ran-after-halt:" + halted,
                               "halt_on_failure=True: stage[%d].%s was invoked after a required stage had %s" % (
                                   i, {"c": "checkpoint", "p": "processor", "h": "on_error"}[role], halted),
                               witness())
@@ -320,20 +328,20 @@ def judge(ctx, acc, meta, halt, maxamp, inp, log, res, describe, layer):
                 gate[i] = None
                 if g is None:
                     legit = False
-                    ctx.violation("gate-skipped:" + hsuffix,
+                    violation("gate-skipped:" + hsuffix,
                                   "stage[%d] has a checkpoint but its processor ran without the checkpoint being consulted" % i,
                                   witness())
                 elif g[1] is False:
                     legit = False
-                    ctx.violation("gate-reject-runs-stage:" + hsuffix,
+                    violation("gate-reject-runs-stage:" + hsuffix,
                                   "stage[%d] processor ran although its checkpoint returned False" % i, witness())
                 elif g[1] is not True:
                     legit = False
-                    ctx.violation("gate-raise-runs-stage:" + hsuffix,
+                    violation("gate-raise-runs-stage:" + hsuffix,
                                   "stage[%d] processor ran although its checkpoint raised" % i, witness())
                 elif g[0] is not arg:
                     legit = False
-                    ctx.violation("gate-other-signal",
+                    violation("gate-other-signal",
                                   "stage[%d] processed %r but its checkpoint had passed %r" % (i, arg, g[0]), witness())
                 else:
                     acc["gated_processing_checked"] = acc.get("gated_processing_checked", 0) + 1
@@ -388,10 +396,10 @@ def judge(ctx, acc, meta, halt, maxamp, inp, log, res, describe, layer):
         bad = [i for i in range(n) if state[i] not in (DONE, RECOVERED)]
         if bad:
             i = bad[0]
-            ctx.violation("success-with-incomplete-stage:" + STATE_NAMES[state[i]],
+            violation("success-with-incomplete-stage:" + STATE_NAMES[state[i]],
                           "run reported successful although stage[%d] is %s" % (i, STATE_NAMES[state[i]]), witness())
         elif porder != list(range(n)):
-            ctx.violation("success-out-of-order",
+            violation("success-out-of-order",
                           "run reported successful but processors ran in order %r" % (porder,), witness())
         else:
             acc["compositions_checked"] = acc.get("compositions_checked", 0) + 1
@@ -400,17 +408,17 @@ def judge(ctx, acc, meta, halt, maxamp, inp, log, res, describe, layer):
                 if procsig[i] is not out[i - 1]:
                     ok = False
             if not ok:
-                ctx.violation("stage-input-not-previous-output",
+                violation("stage-input-not-previous-output",
                               "successful run: a stage did not receive the previous stage's output (or the first stage "
                               "not the pipeline input)", witness())
             elif res.final_output is not out[n - 1]:
-                ctx.violation("final-output-not-composition",
+                violation("final-output-not-composition",
                               "successful run released %r, the composition of the stage functions is %r" % (
                                   res.final_output, out[n - 1]), witness())
     else:
         acc["runs_reported_failure"] = acc.get("runs_reported_failure", 0) + 1
         if res.final_output is not None:
-            ctx.violation("output-released-on-failure",
+            violation("output-released-on-failure",
                           "run not reported successful but final_output=%r was released" % (res.final_output,), witness())
 
     # stage_results labels are outside the statement: mismatches are only counted, never judged
@@ -441,7 +449,7 @@ def judge(ctx, acc, meta, halt, maxamp, inp, log, res, describe, layer):
     except Exception:
         ok = False
     if not ok:
-        ctx.violation("amplification-not-clamped-product",
+        violation("amplification-not-clamped-product",
                       "total_amplification=%r, completed stages' factors %r, max_amplification=%r" % (
                           got, fs_normal, maxamp),
                       witness({"accepted_values": sorted({clamp_running(fs_normal, maxamp), clamp_final(fs_normal, maxamp),
@@ -679,6 +687,342 @@ def case_mapk(ctx, n, tp):
     flush(ctx, acc)
 
 
+# ---------------------------------------------------------------------------- overlapping runs of ONE cascade
+# A second run() starts on the same Cascade object before the first one returned: re-entrantly from one of the first
+# run's own callbacks, or from another thread under the line-level scheduler (rv.sched; real threads, the scheduler decides
+# at every statement of the Cascade class - and at every callback entry - who continues). The stages are shared, so the
+# scripted behaviour is looked up per RUN: every run has its own script, its own unique signals and its own invocation
+# log, and every returned CascadeResult is judged against that run's own log by the same `judge` as everywhere else.
+_TLS = threading.local()          # .stack = runs in progress on this thread, innermost last
+OV_CP = ["-", "pass", "reject", "raise"]
+OV_PR = ["pass", "raise", "identity"]
+OV_HD = ["-", "recover", "raise"]
+ROLE_NAMES = {"c": "checkpoint", "p": "processor", "h": "on_error", "s": "on_stage_complete"}
+UNSET = object()
+
+
+class Run:
+    __slots__ = ("tag", "script", "log", "inp", "nest", "fired", "res", "group", "parent")
+
+    def __init__(self, tag, script, nest=None):
+        self.tag = tag
+        self.script = script      # per stage (checkpoint, processor, handler) behaviour of THIS run
+        self.log = []
+        self.inp = Sig(tag + ".in")
+        self.nest = nest          # (stage, role, Run): that callback of this run starts the nested run
+        self.fired = False
+        self.res = UNSET
+        self.group = None
+        self.parent = None
+
+    def family(self):
+        yield self
+        if self.nest is not None:
+            self.nest[2].parent = self
+            yield from self.nest[2].family()
+
+
+class Group:
+    """one set of overlapping runs on one cascade"""
+    __slots__ = ("casc", "order", "stub_yield", "tops")
+
+    def __init__(self, casc, tops, stub_yield=False):
+        self.casc = casc
+        self.order = []           # run tag of every callback entry, in global order
+        self.stub_yield = stub_yield
+        self.tops = tops
+        for t in tops:
+            for r in t.family():
+                r.group = self
+
+    def runs(self):
+        for t in self.tops:
+            yield from t.family()
+
+
+def _ov_launch(g, r):
+    st = _TLS.__dict__.setdefault("stack", [])
+    st.append(r)
+    try:
+        r.res = g.casc.run(r.inp)
+    except Exception:
+        r.res = None
+    finally:
+        st.pop()
+
+
+def _ov_enter(i, role):
+    r = _TLS.stack[-1]
+    g = r.group
+    g.order.append(r.tag)
+    if g.stub_yield:
+        s = sched._ACTIVE
+        if s is not None:
+            me = s.index.get(threading.get_ident())
+            if me is not None:
+                s.policy.at_stub = True
+                s.yield_point(me, "callback:" + role, i)
+    nest = r.nest
+    if nest is not None and not r.fired and nest[0] == i and nest[1] == role:
+        r.fired = True
+        _ov_launch(g, nest[2])
+    return r
+
+
+def _mk_ov_stubs(i):
+    def cp(s):
+        r = _ov_enter(i, 'c')
+        b = r.script[i][0]
+        if b == 1:
+            r.log.append((i, 'c', s, True, None))
+            return True
+        if b == 2:
+            r.log.append((i, 'c', s, False, None))
+            return False
+        r.log.append((i, 'c', s, 'raise', None))
+        raise Boom("gate of stage %d raised for run %s" % (i, r.tag))
+
+    def pr(s):
+        r = _ov_enter(i, 'p')
+        b = r.script[i][1]
+        if b == 0:
+            o = Sig("%s.p%d" % (r.tag, i))
+            r.log.append((i, 'p', s, 'ret', o))
+            return o
+        if b == 2:
+            r.log.append((i, 'p', s, 'ret', s))
+            return s
+        r.log.append((i, 'p', s, 'raise', None))
+        raise Boom("processor of stage %d raised for run %s" % (i, r.tag))
+
+    def hd(e):
+        r = _ov_enter(i, 'h')
+        if r.script[i][2] == 1:
+            o = Sig("%s.h%d" % (r.tag, i))
+            r.log.append((i, 'h', e, 'ret', o))
+            return o
+        r.log.append((i, 'h', e, 'raise', None))
+        raise Boom("handler of stage %d raised for run %s" % (i, r.tag))
+
+    return cp, pr, hd
+
+
+OV_STUBS = [_mk_ov_stubs(i) for i in range(5)]
+
+
+def _ov_stage_complete(sr):
+    # a notification callback of the cascade: never judged, only one more place from which a run can be re-entered
+    try:
+        i = int(sr.stage_name[1:])
+    except Exception:
+        return
+    if 0 <= i < 5 and getattr(_TLS, "stack", None):
+        _ov_enter(i, 's')
+
+
+class CallbackPolicy:
+    """Hands the token over only when a thread enters one of the cascade's callbacks (seeded coin)."""
+
+    def __init__(self, rng, p):
+        self.rng, self.p, self.at_stub = rng, p, False
+
+    def choose(self, step, current, runnable):
+        if current is None or current not in runnable:
+            return self.rng.choice(runnable)
+        if self.at_stub:
+            self.at_stub = False
+            others = [t for t in runnable if t != current]
+            if others and self.rng.random() < self.p:
+                return self.rng.choice(others)
+        return current
+
+
+class SwitchAtPolicy:
+    """Non-preemptive except at the given statement steps, where another runnable thread (seeded) continues."""
+
+    def __init__(self, rng, steps):
+        self.rng, self.steps = rng, set(steps)
+
+    def choose(self, step, current, runnable):
+        if current is None or current not in runnable:
+            return self.rng.choice(runnable)
+        if step in self.steps:
+            others = [t for t in runnable if t != current]
+            if others:
+                return self.rng.choice(others)
+        return current
+
+
+def _ov_script(rng, k, base=None, p_change=1.0):
+    out = []
+    for i in range(k):
+        if base is not None and rng.random() >= p_change:
+            out.append(base[i])
+            continue
+        cp = rng.choice([1, 1, 1, 1, 1, 1, 1, 2, 2, 3])
+        pr = rng.choice([0, 0, 0, 0, 0, 0, 0, 1, 1, 1, 2])
+        hd = rng.choice([1, 1, 2])
+        out.append((cp, pr, hd))
+    return out
+
+
+def _ov_render_script(meta, script):
+    return [{"checkpoint": OV_CP[b[0]] if meta[i][1] else "-", "processor": OV_PR[b[1]],
+             "on_error": OV_HD[b[2]] if meta[i][2] else "-"} for i, b in enumerate(script)]
+
+
+def _overlapped(order, tops):
+    """did callbacks of different top-level runs alternate (A..B..A), as opposed to A..A B..B ?"""
+    owner = {}
+    for t in tops:
+        for r in t.family():
+            owner[r.tag] = t.tag
+    seen, last = set(), None
+    for tag in order:
+        o = owner.get(tag)
+        if o != last:
+            if o in seen:
+                return True
+            seen.add(o)
+            last = o
+    return False
+
+
+def case_overlap(ctx, n, tp):
+    from operon_ai.topology.cascade import Cascade, CascadeStage
+    sched.instrument(Cascade)
+    rng = ctx.rng(n)
+    acc = {}
+
+    def bump(k_, v=1):
+        acc[k_] = acc.get(k_, 0) + v
+
+    for cfg in range(tp["ov_per"]):
+        k = rng.choice([1, 2, 2, 3, 3, 3, 4, 4, 5])
+        halt = rng.random() < 0.5
+        maxamp = rng.choice(MAXAMPS_X)
+        notify = rng.random() < 0.4
+        casc = Cascade("c19-shared", max_amplification=maxamp, halt_on_failure=halt, silent=True,
+                       on_stage_complete=_ov_stage_complete if notify else None)
+        casc._lock = locks.DetectingLock(sched.SchedLock(casc._lock, "Cascade._lock"), "Cascade._lock")
+        meta = []
+        for i in range(k):
+            has_cp, has_hd, req = rng.random() < 0.5, rng.random() < 0.4, rng.random() < 0.6
+            f = rng.choice(FACTORS_X)
+            cp_, pr_, hd_ = OV_STUBS[i]
+            casc.add_stage(CascadeStage(name="s%d" % i, processor=pr_, amplification=f, checkpoint=cp_ if has_cp else None,
+                                        on_error=hd_ if has_hd else None, required=req))
+            meta.append(("s%d" % i, has_cp, has_hd, req, f))
+        base = _ov_script(rng, k)
+        serial = [0]
+
+        def new_run(depth=0, p_nest=0.0):
+            serial[0] += 1
+            tag = "r%d" % serial[0]
+            nest = None
+            if depth < 3 and rng.random() < p_nest:
+                j = rng.randrange(k)
+                roles = ['p', 'p'] + (['c'] if meta[j][1] else []) + (['h'] if meta[j][2] else []) + (['s'] if notify else [])
+                nest = (j, rng.choice(roles), new_run(depth + 1, 0.3))
+            return Run(tag, _ov_script(rng, k, base, 0.35), nest)
+
+        def describe_group(g, mode, label, sc=None):
+            def d():
+                w = {"halt_on_failure": halt, "max_amplification": maxamp, "shared_cascade": True,
+                     "stages": [{"name": m[0], "has_checkpoint": m[1], "has_on_error": m[2], "required": m[3],
+                                 "amplification": m[4]} for m in meta],
+                     "overlap": mode, "schedule": label,
+                     "callback_entry_order": list(g.order[:200]),
+                     "runs": [{"run": r.tag, "input": repr(r.inp),
+                               "started_by": ("thread" if r.parent is None and mode == "threads" else
+                                              "caller" if r.parent is None else
+                                              "%s of stage[%d] of run %s" % (ROLE_NAMES[r.parent.nest[1]], r.parent.nest[0],
+                                                                             r.parent.tag)),
+                               "script": _ov_render_script(meta, r.script),
+                               "invocation_log": render_log(r.log),
+                               "result": render_result(r.res) if r.res is not UNSET else "not started"}
+                              for r in g.runs()]}
+                if sc is not None:
+                    w["scheduler_choices"] = sc.choices[:300]
+                return w
+            return d
+
+        def judge_group(g, mode, label, sc=None, overlapped=True):
+            describe = describe_group(g, mode, label, sc)
+            complete = incomplete = 0
+            for r in g.runs():
+                if r.res is UNSET:
+                    bump("overlap_nested_run_not_reached")
+                    continue
+                state = judge(ctx, acc, meta, halt, maxamp, r.inp, r.log, r.res, describe, "overlap-" + mode,
+                              msuf=":overlapping-runs")
+                bump("overlap_runs_judged")
+                if all(s_ in (DONE, RECOVERED) for s_ in state):
+                    complete += 1
+                elif any(s_ in (FAILED, BLOCKED, GATE_RAISED) for s_ in state):
+                    incomplete += 1
+            if overlapped and complete and incomplete:
+                bump("overlap_groups_complete_run_beside_failed_run")
+            if "overlap-" + mode not in _sampled and overlapped and complete and incomplete:
+                _sampled.add("overlap-" + mode)
+                ctx.sample({"layer": "overlap-" + mode, "group": describe()}, cap=6)
+
+        dead = False
+        # -- re-entrant: a callback of the running cascade calls run() on the same object ---------------------
+        for _ in range(tp["ov_nested"]):
+            top = new_run(0, 1.0)
+            g = Group(casc, [top])
+            _TLS.stack = []
+            try:
+                _ov_launch(g, top)
+            except locks.WouldHang:
+                bump("overlap_self_deadlock_unjudged")
+                dead = True
+                break
+            bump("overlap_reentrant_groups")
+            if top.fired:
+                bump("overlap_reentrant_groups_nested_run_started")
+            judge_group(g, "re-entrant", "single thread", overlapped=top.fired)
+        # -- threads: 2-3 threads call run() on the same object under the controlled scheduler ----------------
+        nsteps = 40 * k * 2
+        for sidx in range(0 if dead else tp["ov_sched"]):
+            nthreads = 2 if rng.random() < 0.8 else 3
+            tops = [new_run(0, 0.15) for _ in range(nthreads)]
+            kind = sidx % 4
+            if kind < 2:
+                p = (0.5, 0.3)[kind]
+                policy, label, stub_yield = CallbackPolicy(rng, p), "switch at callback entries (p=%.1f)" % p, True
+            elif kind == 2:
+                p = rng.choice([0.02, 0.05, 0.15, 0.4])
+                policy, label, stub_yield = sched.RandomPolicy(rng, p), "random statement-level (p=%.2f)" % p, False
+            else:
+                steps = sorted(rng.randrange(1, max(2, nsteps)) for _ in range(rng.choice([1, 2, 2, 3, 4])))
+                policy, label, stub_yield = SwitchAtPolicy(rng, steps), "switch at statements %r" % (steps,), False
+            g = Group(casc, tops, stub_yield)
+            sc = sched.Scheduler(policy, watchdog_s=30.0)
+
+            def body(r, g=g):
+                _TLS.stack = []
+                _ov_launch(g, r)
+            sc.run([(lambda r=r: body(r)) for r in tops])
+            nsteps = max(sc.step, 2)
+            bump("overlap_thread_schedules")
+            if sc.stuck:
+                ctx.inconclusive("an overlapping-runs schedule hit the wall-clock watchdog (not a verdict)")
+                break
+            if sc.deadlock or any(e is not None for e in sc.errors):
+                bump("overlap_schedule_deadlock_or_error_unjudged")
+                break
+            ov = _overlapped(g.order, tops)
+            if ov:
+                bump("overlap_thread_schedules_interleaved")
+            if sc.preemptions:
+                bump("overlap_thread_schedules_preempted")
+            judge_group(g, "threads", label, sc, overlapped=ov)
+        bump("overlap_cascades")
+    flush(ctx, acc)
+
+
 # ---------------------------------------------------------------------------- driver
 def run_case(ctx, n):
     tp = tier_params(ctx.tier)
@@ -688,7 +1032,10 @@ def run_case(ctx, n):
     n2 = n - ns
     if n2 < tp["mapk_cases"]:
         return case_mapk(ctx, n, tp)
-    return case_random(ctx, n, tp)
+    if n2 < tp["mapk_cases"] + tp["rand_cases"]:
+        return case_random(ctx, n, tp)
+    # last block on purpose: the statement-level scheduler hook on the Cascade class is installed only from here on
+    return case_overlap(ctx, n, tp)
 
 
 if __name__ == "__main__":
